@@ -126,6 +126,20 @@ def scanHistory {Sig Delta : Type} (c : Codec Sig Delta) (valid hasContent : Byt
     let (rs, st'') := scanHistory c valid hasContent st' rest
     (r :: rs, st'')
 
+/-- Delta application is exact for one (base, target) pair. -/
+def ExactFor {Sig Delta : Type} (c : Codec Sig Delta) (base target : Bytes) : Prop :=
+  c.patch base (c.sign base) (c.deltify target (c.sign base)) = some target
+
+/-- The snapshots the server marshals in a history. -/
+def historyTargets (hist : List (Bytes × ScanOutcome)) : List Bytes :=
+  hist.filterMap fun h => match h.2 with | .snapshot b => some b | .error _ => none
+
+/-- Every byte string that can serve as the client's baseline in a history:
+what it holds initially, the ancestor-based snapshots, and the snapshots it
+receives. -/
+def historyBases (st : Client) (hist : List (Bytes × ScanOutcome)) : List Bytes :=
+  st.last.toList ++ hist.map (·.1) ++ historyTargets hist
+
 /-! ## Staging -/
 
 /-- `StageResponse` with signatures abstracted to their validity. -/
